@@ -12,6 +12,7 @@ package main
 //  which=3  raw commit
 //                    case = ((topic ...) ((sid packed) ...))     obs = (status (marks ...))
 //  which=4  consumer-group session on the real splitConsume.Assigned / Lost / pconsumer goroutines: see session.go
+//  which=5  the real plugin (Start / NewClient / poll loop / Stop) against an in-process Kafka broker, restarts: see group.go, broker.go
 //  status 0 = every Commit returned; 2 = a Commit panicked with index out of range (run stops); 1 = other panic
 
 import (
@@ -207,6 +208,8 @@ func c10Exec(which int, cs hx.Sx) hx.Sx {
 		return hx.L(hx.I(st), hx.L(steps...))
 	case 4:
 		return c10ExecSession(cs)
+	case 5:
+		return c10ExecGroup(cs)
 	}
 	panic("c10: unknown which")
 }
@@ -486,11 +489,14 @@ func c10Gen(c *hmain.Ctx) {
 
 	// 7. scale / history thresholds of consumer.go (gen37.go): big fetches, many fetches, long commit histories, sessions
 	c10GenThresholds(c)
+
+	// 8. the real plugin (Start / NewClient / poll loop / Stop) in a consumer group on an in-process broker; restarts (gengroup.go)
+	c10GenGroup(c)
 }
 
 func main() {
 	hmain.Run(&hmain.Prop{ID: "C10",
-		Rule: "boundary: all powers of two and their neighbours up to the ends of the Go types, all (index,partition) and (offset,epoch) pairs, and the 16 corners of the stated ranges inside/just outside; exhaustive: index<4 x partition<16 x offset<16 x epoch<4 and every one of the 65536 partition and epoch values; random tuples (70% inside the stated ranges over all bit lengths); unpacking of arbitrary bit patterns; random consume+Commit sequences (permuted completion order, repeats, omissions, duplicate topic names, epoch -1 / out-of-range components) on the real Commit + real kgo marks; raw events incl. topic index outside the list; consumer.go thresholds (gen37.go): one fetch of 255..700 records (bufferSize 256), 6..40 fetches of one partition, 150..300 Commit calls on one plugin, directed and random consumer-group sessions on the real Assigned / Lost / pconsumer goroutines (bursts of 6..12 fetches on one consumer, Lost with 0..6 buffered fetches incl. the full channel of 5, fetches for partitions without a consumer, re-assignment with redelivery). Non-trivial = all four components positive and inside the ranges (pack), an in-range sequence with >= 3 Commit calls (commit), every unpack / raw case, an in-range session that routed at least one record; distinct = distinct (sub-model, case) text.",
+		Rule: "boundary: all powers of two and their neighbours up to the ends of the Go types, all (index,partition) and (offset,epoch) pairs, and the 16 corners of the stated ranges inside/just outside; exhaustive: index<4 x partition<16 x offset<16 x epoch<4 and every one of the 65536 partition and epoch values; random tuples (70% inside the stated ranges over all bit lengths); unpacking of arbitrary bit patterns; random consume+Commit sequences (permuted completion order, repeats, omissions, duplicate topic names, epoch -1 / out-of-range components) on the real Commit + real kgo marks; raw events incl. topic index outside the list; consumer.go thresholds (gen37.go): one fetch of 255..700 records (bufferSize 256), 6..40 fetches of one partition, 150..300 Commit calls on one plugin, directed and random consumer-group sessions on the real Assigned / Lost / pconsumer goroutines (bursts of 6..12 fetches on one consumer, Lost with 0..6 buffered fetches incl. the full channel of 5, fetches for partitions without a consumer, re-assignment with redelivery); which=5 (group.go, broker.go, gengroup.go): the real plugin through Factory / Start / NewClient / the poll loop / Stop in a consumer group on an in-process Kafka broker, several plugin lifetimes on one group (restart after Stop, after a refused final commit, rebalances), all balancers, both offset settings, meta templates, PollRecords limits 1..256, optionally the real pipeline between In and Commit. Non-trivial = all four components positive and inside the ranges (pack), an in-range sequence with >= 3 Commit calls (commit), every unpack / raw case, an in-range session that routed at least one record; distinct = distinct (sub-model, case) text.",
 		Gen: func(c *hmain.Ctx) {
 			c10Gen(c)
 			// frontier clause at pipeline level: a kafka-like input (UseSpread + DisableStreams) on the
